@@ -100,6 +100,38 @@ def noAccessorNamedProps (env : Env) (rt : RT) : Bool :=
     | .object props _ => props.any (fun p => p.1 == "size" || p.1 == "length")
     | _ => false) env rt
 
+/-- hypothesis `NoRequiredUndefinedAcceptingProp` (C02/D48): no REQUIRED property whose type accepts `undefined`
+(the validator then accepts an absent key, the schema lists the key as required) -/
+def noRequiredUndefAccepting (env : Env) (rt : RT) : Bool :=
+  !anyInEnv (fun t => match t with
+    | .object props _ => props.any (fun p => !(isOptionalRT p.2) &&
+        (match validate env false 60 p.2 .undef with | .ok true => true | _ => false))
+    -- the tuple analogue: a prefix element that accepts `undefined` lets a shorter array through (S6)
+    | .tuple pre _ => pre.any (fun t => match validate env false 60 t .undef with | .ok true => true | _ => false)
+    | _ => false) env rt
+where
+  isOptionalRT : RT → Bool
+    | .optional _ => true
+    | _ => false
+
+/-- hypothesis `NoMultiValuedDiscriminator` (C02/D49): no discriminated union maps two discriminator values to the
+same variant (contextual printing then lists that variant twice under `oneOf`) -/
+def noMultiValuedDiscriminator (env : Env) (rt : RT) : Bool :=
+  !anyInEnv (fun t => match t with
+    | .disc schemas key mapping _ => mapping.length > schemas.length ||
+        schemas.any (fun s => match stripDesc s with
+          | .object props _ => (match props.find? (fun p => p.1 == key) with
+            | some (_, .consts (_ :: _ :: _)) => true
+            | _ => false)
+          | _ => false)
+    | _ => false) env rt
+
+/-- hypothesis `NoMixedIndexRT` (C02/D50): no object with declared properties AND an index signature -/
+def noMixedIndexRT (env : Env) (rt : RT) : Bool :=
+  !anyInEnv (fun t => match t with
+    | .object (_ :: _) (_ :: _) => true
+    | _ => false) env rt
+
 /-- hypothesis `NoEmptyIntersection` (C12): `allOf []` accepts everything and reports nothing -/
 def noEmptyIntersection (env : Env) (rt : RT) : Bool :=
   !anyInEnv (fun t => match t with | .allOf [] => true | _ => false) env rt
